@@ -267,24 +267,26 @@ class Seq:
 
 
 class DictV:
-    __slots__ = ("dom", "val", "size", "kty", "vty", "_keys")
+    __slots__ = ("dom", "val", "size", "kty", "vty", "_keys", "default")
 
-    def __init__(self, dom, val, size, kty, vty, keys=None):
+    def __init__(self, dom, val, size, kty, vty, keys=None, default=None):
         self.dom = dom      # key value -> Bool
         self.val = val      # key value -> Value
         self.size = size    # Int term / int
         self.kty = kty
         self.vty = vty
         self._keys = keys   # cached iteration order (Seq) or None
+        self.default = default   # collections.defaultdict(list): the value a missing key reads as (an empty list)
 
 
 class SetV:
-    __slots__ = ("has", "size", "kty")
+    __slots__ = ("has", "size", "kty", "_elems")
 
     def __init__(self, has, size, kty):
         self.has = has
         self.size = size
         self.kty = kty
+        self._elems = None      # cached iteration order: one enumeration per set object
 
 
 class Opaque:
